@@ -143,11 +143,19 @@ def check(tier):
 def run(rep, tier):
     prog, secs = load_program(fresh=True)
     jobs = jobs_for(tier)
-    results = run_jobs(jobs, workers=NCPU, order_seed=seed())
     hashes = {}
-    for job, r in zip(jobs, results):
+    results = run_jobs(jobs, workers=NCPU, order_seed=seed(), on_result=lambda job, r: handle(rep, job, r, hashes))
+    rep.extra.setdefault('mir_hashes', {}).update(hashes)
+    if rep.violations:
+        return          # a replayed violation decides the run; the remaining scenarios were cancelled
+    validate(rep)
+
+
+def handle(rep, job, r, hashes):
+    """absorb one scenario result; returns True when a violation has been replayed (stops the run)"""
+    if True:
         if r.get('error'):
-            rep.oblige(1, ok=False); rep.note_inconclusive('%s: %s' % (job[2], r['error'])); continue
+            rep.oblige(1, ok=False); rep.note_inconclusive('%s: %s' % (job[2], r['error'])); return False
         hashes.update(r.get('mir_hash', {}))
         rep.states += r['paths']; rep.transitions += r['steps']; rep.queries += r['queries']; rep.solver_s += r['solver_s']
         rep.oblige(r['obligations'] - r['violable']); rep.oblige(r['violable'], ok=False)
@@ -161,7 +169,10 @@ def run(rep, tier):
             if rep.violations or rep.known_hit:
                 break                      # one replayed counterexample per run is enough; the rest are counted as undischarged
             confirm(rep, b)
-    rep.extra.setdefault('mir_hashes', {}).update(hashes)
+    return bool(rep.violations)
+
+
+def validate(rep):
     # translator validation: concrete runs of the same executor + stubs on real SHAKE streams vs the real function
     val = [(MOD, 'h2p_concrete_scen', dict(msg_hex=m.hex(), n=n)) for m in (b'', b'verif-c14-validate', b'\x00' * 41) for n in (16, 512)]
     for job, r in zip(val, run_jobs(val, workers=6)):
